@@ -650,7 +650,7 @@ def run(ctx: Ctx) -> int:
                f"({sum(1 for r in cal if r['t'] == 'calib')} with the field values stated by the tests)")
 
     # ---- inverse: real pack / unpack / re-pack of generated well-formed messages ----------------------
-    rounds = ctx.pick(6, 66)
+    rounds = ctx.pick(6, 100)
     rid = 0
     valid: dict[str, list[bytes]] = {}
     pending: list[dict] = []
